@@ -1139,8 +1139,8 @@ class Font(BaseObject):
         if not isinstance(guideline, self._guidelineClass):
             guideline = self.instantiateGuideline(guidelineDict=guideline)
         assert guideline.font in (self, None), "This guideline belongs to another font."
+        assert guideline.glyph is None, "This guideline belongs to a glyph."
         if guideline.font is None:
-            assert guideline.glyph is None, "This guideline belongs to a glyph."
             if guideline.identifier is not None:
                 # a guideline that is going to be rejected must not be announced
                 assert guideline.identifier not in self._identifiers
